@@ -8,7 +8,7 @@ PREDICATE = 'C11'
 LEAN_TARGETS = ['LLTD.Props.C11']
 VARIANT = 'san'
 RULE = ('derive_session_event on harness-built frames in an exact-size heap image: Discover with station counts 0..240, the own '
-        'address at every position / absent / near-collisions differing in one byte, declared count above what the frame holds '
+        'address at every position / absent / near-collisions differing in one byte / present in the bytes of the list but at no entry (straddling two entries at every byte offset, behind the declared list, byte-reversed), declared count above what the frame holds '
         '(incl. 0xFFFF), session tables with same/different sequence number and generation, Discovers arriving directly or through a bridge (Ethernet source = another station or another known mapper), all 256 opcodes, Reset to broadcast / '
         'unicast, truncated images; non-trivial = event != -1; distinct = distinct (op, result) line pairs')
 ASSUMPTIONS = ['the classifier is told the number of bytes it may read (frame_len), as the repaired signature requires']
@@ -53,6 +53,38 @@ def cases(rng, tier, X):
                 avail = len(f) // 2
             ops.append('ev 0 %s avail=%d tbl=%s' % (f, avail, rng.choice(['0', '0', '-'])))
     out.append(('positions', ops))
+    # the own address present in the BYTES of the list but at no entry: straddling two consecutive entries at every byte
+    # offset, starting in the generation / count fields before the list, running past the declared count into the
+    # padding, split by a foreign byte, byte-reversed — none of these acknowledges
+    ops = base + tblops
+    for n in [2, 3, 4, 12]:
+        for e in range(n - 1):
+            if n == 12 and e not in (0, 6, 10):
+                continue
+            for r in range(1, 6):
+                raw = bytearray(rng.randrange(256) for _ in range(6 * n))
+                for i in range(n):
+                    raw[6 * i:6 * i + 6] = bytes.fromhex(rng.choice(NEAR[:6]))
+                raw[6 * e + r:6 * e + r + 6] = bytes.fromhex(OWN)
+                st = [raw[6 * i:6 * i + 6].hex() for i in range(n)]
+                for xid in (100, 1):
+                    f = discover(rng, MAPPERS[0], 7, xid, st)
+                    ops.append('ev 0 %s avail=%d tbl=0' % (f, rng.choice([len(f) // 2, 1500])))
+    for n in [1, 2, 5]:
+        st = [rng.choice(NEAR[:6]) for _ in range(n)]
+        f = discover(rng, MAPPERS[0], 7, 100, st)
+        # the own address right behind the declared list (padding / next bytes of the buffer), one byte early, one late
+        for shift in (0, -1, 1, -5, 5):
+            img = f + '00' * 12
+            at = 2 * (len(f) // 2 + shift)
+            img = img[:at] + OWN + img[at + 12:]
+            ops.append('ev 0 %s avail=%d tbl=0' % (img, len(img) // 2))
+        ops.append('ev 0 %s avail=%d tbl=0' % (discover(rng, MAPPERS[0], 7, 100, [OWN[10:12] + OWN[8:10] + OWN[6:8] + OWN[4:6] + OWN[2:4] + OWN[0:2]] + st), 1500))
+    # the own address as the mapper / the Ethernet source / the real destination but not in the list
+    for st in ([], [NEAR[0]], [NEAR[1], NEAR[2]]):
+        ops.append('ev 0 %s avail=1500 tbl=0' % (hdr(0, 0, OWN, MAPPERS[0], OWN, MAPPERS[0], 100) + '%04x%04x' % (7, len(st)) + ''.join(st)))
+        ops.append('ev 0 %s avail=1500 tbl=0' % (hdr(0, 0, 'ffffffffffff', OWN, 'ffffffffffff', MAPPERS[0], 100) + '%04x%04x' % (7, len(st)) + ''.join(st)))
+    out.append(('straddle', ops))
     # declared count vs what the frame holds
     ops = base + tblops
     for declared in [0, 1, 2, 5, 6, 7, 240, 241, 256, 0x7fff, 0x8000, 0xffff, 10923, 10924, 21846, 32769, 43691, 54614]:    # incl. counts whose product with 6 wraps 16 bits
@@ -96,6 +128,8 @@ def cases(rng, tier, X):
     # universal automata schedule (all public calls, missing objects, near-colliding keys, bridged frames, every deadline): this check's predicate on it
     for k in range(60 if tier == 'quick' else 6000):
         out.append(('au%d' % k, auto.schedule(rng)))
+        if k % 3 == 0:
+            out.append(('au2_%d' % k, auto.schedule2(rng)))      # two responders in one process, interleaved on the shared clock
     return out
 
 
